@@ -152,6 +152,13 @@ func (il *IPRequestLimiter) dump() {
 func ipFromRequest(req *http.Request) (string, error) {
 	forwardIP := req.Header.Get("X-Forwarded-For")
 	if forwardIP != "" {
+		// The header is a list "client, proxy1, proxy2". The client must be counted under one name whatever
+		// the proxies add and however the address is written (an IPv6 address has many spellings).
+		client, _, _ := strings.Cut(forwardIP, ",")
+		client = strings.TrimSpace(client)
+		if clientIP := net.ParseIP(client); clientIP != nil {
+			return clientIP.String(), nil
+		}
 		return forwardIP, nil
 	}
 	ip, _, err := net.SplitHostPort(req.RemoteAddr)
